@@ -97,6 +97,32 @@ def run_all(ctx):
         ok = ("err" in real and real["err"] == "TypeError") or ("ok" in real and real["ok"] == fields_of(d))
         ans = ctx.driver.call("dtype.parse", string=d.name, aliases=aliases)["model"]
         ctx.case("dtype.parse.parametric", {"string": d.name}, real, ans, None, features=("parametric",), spec_ok=ok)
+        # identity of a dtype over a parametric element type: reports the type back, equals the dtype built from the
+        # struct type, survives pickling and deep copies — as a dtype, inside an array, inside a Series
+        import copy as _copy
+
+        def ident():
+            st = pa.struct([pa.field("p", pa.list_(t)), pa.field("k", pa.list_(pa.int64()))])
+            d3 = NestedDtype(st)
+            arr = NestedExtensionArray(pa.chunked_array([pa.array([], type=st)], type=st))
+            ser = pd.Series(arr, name="c")
+            out = {"reports": bool(d.fields["p"].equals(t)) and bool(d.pyarrow_dtype.equals(st)),
+                   "eq_struct_built": d == d3 and hash(d) == hash(d3),
+                   "from_own_fields": NestedDtype.from_fields(d.fields) == d,
+                   "differs_from_element_swapped": d != NestedDtype.from_fields({"p": pa.int64(), "k": pa.int64()})}
+            for nm, f in (("pickle_dtype", lambda: pickle.loads(pickle.dumps(d)) == d),
+                          ("deepcopy_dtype", lambda: _copy.deepcopy(d) == d),
+                          ("pickle_array", lambda: pickle.loads(pickle.dumps(arr)).dtype == d),
+                          ("deepcopy_array", lambda: _copy.deepcopy(arr).dtype == d),
+                          ("pickle_series", lambda: pickle.loads(pickle.dumps(ser)).dtype == d),
+                          ("pickle_frame", lambda: pickle.loads(pickle.dumps(NestedFrame({"c": ser})))["c"].dtype == d)):
+                r = call_real(f)
+                out[nm] = r["ok"] if "ok" in r else f"{r.get('err')}"
+            return out
+        keys = ["reports", "eq_struct_built", "from_own_fields", "differs_from_element_swapped", "pickle_dtype", "deepcopy_dtype",
+                "pickle_array", "deepcopy_array", "pickle_series", "pickle_frame"]
+        ctx.case("dtype.identity.parametric", {"type": str(t)}, call_real(ident), None, {"ok": {k2: True for k2 in keys}},
+                 features=("parametric",))
     plain = [(a, r, t) for a, r, t in cat]
     for i in range(ctx.budget(250, 3000)):
         k = rng.choice([1, 2, 2, 3, 4])
